@@ -71,8 +71,34 @@ static double f_smooth(double x, void *) { return std::exp(-x * x); }
 int main(int argc, char ** argv)
 {
   int reps = argc > 1 ? atoi(argv[1]) : 10;
+  int group = argc > 2 ? atoi(argv[2]) : 0;
   setenv("BXDECAY0_RESOURCE_DIR", "/repo/resources", 0);
-  // first use of the plumbing entry points from different threads at once (lazily built globals)
+  // first use from different threads at once: every lazily built global is "first used" only once per process, so each
+  // group is run in a process of its own
+  if (group == 1) {
+    // the very first double-beta initialisations of the process, concurrently (mode table, isotope lists)
+    std::vector<std::thread> th;
+    th.emplace_back([] { generator_body(0, true, "Mo100", 0, 1, false); });
+    th.emplace_back([] { generator_body(1, true, "Nd150", 0, 20, false); });
+    th.emplace_back([] { generator_body(2, true, "Cd106", 0, 9, false); });
+    th.emplace_back([] { generator_body(3, true, "Se82", 0, 4, false); });
+    for (auto & t : th) t.join();
+  } else if (group == 2) {
+    // the very first background initialisations, concurrently, on nuclides sharing helper routines
+    std::vector<std::thread> th;
+    th.emplace_back([] { generator_body(0, false, "Sr90", 0, 0, false); });
+    th.emplace_back([] { generator_body(1, false, "K42", 0, 0, false); });
+    th.emplace_back([] { generator_body(2, false, "Cs137+Ba137m", 0, 0, false); });
+    th.emplace_back([] { generator_body(3, false, "Y90", 0, 0, false); });
+    for (auto & t : th) t.join();
+  } else if (group == 3) {
+    // the first gA initialisations, concurrently
+    std::vector<std::thread> th;
+    th.emplace_back([] { generator_body(0, true, "Mo100", 0, 21, true); });
+    th.emplace_back([] { generator_body(1, true, "Se82", 0, 22, true); });
+    th.emplace_back([] { generator_body(2, true, "Cd116", 0, 23, true); });
+    for (auto & t : th) t.join();
+  } else
   {
     std::vector<std::thread> th;
     th.emplace_back([] { bxdecay0::decay0_fermi(44., 1.0); });
@@ -98,6 +124,10 @@ int main(int argc, char ** argv)
     th.emplace_back([] { generator_body(5, true, "Se82", 0, 22, true); });
     th.emplace_back([] { generator_body(6, true, "Ru96", 0, 10, false); });
     th.emplace_back([] { generator_body(7, true, "Zr96", 0, 20, false); });
+    th.emplace_back([] { generator_body(8, false, "Sr90", 0, 0, false); });   // 1st-forbidden-unique beta shapes share helpers
+    th.emplace_back([] { generator_body(9, false, "K42", 0, 0, false); });
+    th.emplace_back([] { generator_body(10, false, "Cs137+Ba137m", 0, 0, false); });
+    th.emplace_back([] { generator_body(11, false, "Ar39", 0, 0, false); });
     for (auto & t : th) t.join();
   }
   printf("done %d repetitions\n", reps);
